@@ -791,6 +791,8 @@ class VacancyMediated(object):
         for i, SP in zip(reversed(range(len(self.om1_SP))), reversed(self.om1_SP)):
             if SP[0] in self.outerkin and SP[1] in self.outerkin:
                 self.om1_jn.pop(i), self.om1_jt.pop(i), self.om1_SP.pop(i)
+        # the tags name the stars and jump networks of THIS range (tags2preene sizes its arrays from them)
+        self.tags, self.tagdict, self.tagdicttype = self.generatetags()
         # empty dictionaries to store GF values
         self.clearcache()
 
